@@ -336,7 +336,7 @@ def data_vectors(rng, labels, thorough):
     out = []
     every = list(labels) + list(reversed(labels))
     rnd = [rng.choice(labels) for _ in range(n + 4)]
-    null = None if isinstance(labels[0], str) else float("nan")
+    null = float("nan") if isinstance(labels[0], (int, float)) and not isinstance(labels[0], bool) else None
     perm = list(labels)
     rng.shuffle(perm)
     out.append(("all-levels/inferred", every, None, srt))
@@ -362,11 +362,14 @@ def check_encoding(acc, n, ltype, labels, rng, thorough):
     import pandas as pd
     from formulaic.transforms.contrasts import encode_contrasts
 
+    value_type = ltype in ("int-zero", "str-empty", "float-zero", "bool")
     for dtag, data, explicit, eff in data_vectors(rng, labels, thorough):
         m = len(eff)
         ind = indicator(data, eff)
         for kind, ctor, kw, spec in configs(m, eff):
-            if kw.get("base") is not None and not thorough and eff.index(kw["base"]) not in (0, m // 2, m - 1):
+            if value_type and not thorough and kind not in ("treatment", "SAS", "sum"):
+                continue  # quick tier: label VALUES only matter where labels are looked up (base) or ordered
+            if kw.get("base") is not None and not thorough and kw["base"] and eff.index(kw["base"]) not in (0, m // 2, m - 1):
                 continue  # quick tier: three base positions
             if kind == "poly" and kw.get("scores") is not None and not thorough and kw["scores"] != poly_scores(m)[3]:
                 continue
@@ -380,7 +383,7 @@ def check_encoding(acc, n, ltype, labels, rng, thorough):
                         acc.case(("encode", kind, ctor, dtag, ltype, m, rr, output, container),
                                  sample={"contrast": ctor, "data": data[:5], "levels": explicit, "reduced_rank": rr, "output": output})
                         dsrc = f"pd.Series({data!r})" if container == "Series" else f"np.array({data!r}, dtype=object)"
-                        if container == "numpy" and not isinstance(labels[0], str):
+                        if container == "numpy" and isinstance(labels[0], (int, float)) and not isinstance(labels[0], bool):
                             dsrc = f"np.array({data!r}, dtype=float)"
                         dsrc = dsrc.replace("nan", "float('nan')")
                         code = repro(ctor, explicit, f"encode_contrasts(data, contrasts=c, levels=levels, reduced_rank={rr}, output={output!r})", expected, tol, extra=f"data = {dsrc}\n")
@@ -415,11 +418,14 @@ def check_e2e(acc, n, ltype, labels, rng, thorough):
     rng.shuffle(data)
     perm = list(labels)
     rng.shuffle(perm)
+    value_type = ltype in ("int-zero", "str-empty", "float-zero", "bool")
     for explicit in (None, perm):
         eff = sorted(labels) if explicit is None else explicit
         ind = indicator(data, eff)
         for kind, ctor, kw, spec in configs(n, eff):
-            if kw.get("base") is not None and eff.index(kw["base"]) not in ((0, n - 1) if not thorough else range(n)):
+            if value_type and not thorough and kind not in ("treatment", "SAS", "sum"):
+                continue
+            if kw.get("base") is not None and kw["base"] and eff.index(kw["base"]) not in ((0, n - 1) if not thorough else range(n)):
                 continue
             if kind == "poly" and kw.get("scores") is not None and kw["scores"] != poly_scores(n)[2]:
                 continue
@@ -455,13 +461,40 @@ def check_e2e(acc, n, ltype, labels, rng, thorough):
                                 acc.fail("C11.state.coding", kind, w, "ContrastsState.get_coding_matrix differs from the coding used")
 
 
+LABEL_TYPES = ("str", "int", "mixed-order", "int-zero", "str-empty", "float-zero", "bool")
+
+
 def labels_for(n, ltype, rng):
+    """Level labels by type. The last four put a FALSY label (0, "", 0.0, False) at a non-first position."""
     if ltype == "str":
         return STR_LABELS[:n]
     if ltype == "int":
         return [3 * (i + 1) for i in range(n)]
+    if ltype == "int-zero":  # negatives, zero, positives (sorted; 0 sits at index n//2)
+        return list(range(-(n // 2), n - n // 2))
+    if ltype == "float-zero":
+        return [0.5 * i for i in range(-(n // 2), n - n // 2)]
+    if ltype == "str-empty":  # the empty string as an ordinary label, second in the given order
+        lab = STR_LABELS[: n - 1]
+        return (lab[:1] + [""] + lab[1:]) if n > 1 else [""]
+    if ltype == "bool":
+        return [True, False][:n]
     lab = [f"L{(7 * i + 3) % 13:02d}" for i in range(n)]  # distinct strings, not in sorted order
     return lab
+
+
+def scope_for(thorough):
+    out = []
+    for n in range(1, 13):
+        for lt in LABEL_TYPES:
+            if lt == "bool" and n > 2:
+                continue
+            if not thorough and (lt in ("float-zero", "str-empty") and n > 5 or lt == "int-zero" and n > 8):
+                continue  # quick tier: the label-value types are enumerated for small n only
+            if not thorough and lt in ("int", "mixed-order") and n in (7, 9, 10, 11):
+                continue  # quick tier (encoding part only; the matrix part always runs the full scope)
+            out.append((n, lt))
+    return out
 
 
 def worker(args):
@@ -475,15 +508,17 @@ def worker(args):
             check_matrices(acc, n, ltype, labels)
         else:
             check_encoding(acc, n, ltype, labels, rng, thorough)
-            if thorough or n <= 6 or ltype == "str":
+            if thorough or n <= 6 or ltype in ("str", "int-zero"):
                 check_e2e(acc, n, ltype, labels, rng, thorough)
     return part, acc.n, acc.keys, acc.samples, acc.fails
 
 
 def run_bounded(ctx):
-    scope = [(n, lt, ctx.seed, ctx.thorough) for n in range(1, 13) for lt in ("str", "int", "mixed-order")]
+    scope = [(n, lt, ctx.seed, ctx.thorough) for n, lt in scope_for(ctx.thorough)]
+    full_scope = [(n, lt, ctx.seed, ctx.thorough) for n, lt in scope_for(True)]
     options = ("Treatment/SAS base in {unset} + every level; Sum; Helmert reverse x scale; Diff backward; Poly scores in "
-               "{none, 1..n, irregular ints, fractional, 10*i}; labels str/int/unsorted str")
+               "{none, 1..n, irregular ints, fractional, 10*i}; labels str/int/unsorted str/ints around 0 (negatives, 0)/floats around 0.0/"
+               "strings incl. the empty string/bool (n<=2)")
     total = {}
     for part, name, exhaustive, rule, bound in (
         ("matrix", "contrast-matrices-n1-12", True,
@@ -494,11 +529,12 @@ def run_bounded(ctx):
          "one case per (contrast + options, data vector kind, levels mode, label type, n, reduced/full, output, container) for "
          "encode_contrasts, and per (contrast, levels mode, intercept, output) for C(x, K) inside model_matrix; oracle = indicator @ closed form",
          "n=1..12; " + options + "; data vectors: all levels, random (seeded), absent levels, nulls, values outside levels=; levels "
-         "inferred/explicit/permuted; outputs pandas/numpy/sparse (quick tier: 3 base positions, 2 score vectors, Series only)"),
+         "inferred/explicit/permuted; outputs pandas/numpy/sparse (quick tier: 3 base positions + every falsy label as base, 2 score vectors, Series only; label-value types: treatment/SAS/sum only)"),
     ):
         with ctx.bounded(name, rule=rule, exhaustive=exhaustive, bound=bound) as b:
             with ProcessPoolExecutor(16) as ex:
-                results = list(ex.map(worker, [(part, *t) for t in reversed(scope)]))
+                part_scope = full_scope if part == "matrix" else scope  # the matrix part is cheap: always the full scope
+                results = list(ex.map(worker, [(part, *t) for t in reversed(part_scope)]))
             for _rpart, n_eval, keys, samples, fails in results:
                 b.add_counts(n_eval, keys, samples)
                 for clause, witness, detail in fails:
